@@ -21,7 +21,8 @@ RULE = ("Hypothesis-generated polygons of 3..12 vertices (thorough up to "
         "1e-6*size to the boundary are not judged (counted). Metamorphic: "
         "rotating/reversing/closing the vertex list, translating by dyadic "
         "offsets (up to 2^26: polygons far from the origin) and scaling by "
-        "powers of two never change the answer; "
+        "powers of two never change the answer, nor does storing a lattice "
+        "polygon (and whole-number points) as uint8/16/32/64, int8 or int16; "
         "cells_inside_polygon returns exactly the cells whose centre the "
         "oracle puts inside, also after the grid was moved / rescaled in "
         "place and on a relocated clone; grids of more than a million cells against analytic "
@@ -246,6 +247,39 @@ def oracle(case):
                             f"{sc} changes the answer for point {pts[k]}; "
                             f"polygon {poly}")
         labels.append("shift+scale")
+        # the same outline stored as unsigned / narrow signed whole numbers
+        # (pixel coordinates), the points as floats or in the same type
+        whole = [k for k in judged if Q[k, 0] == round(Q[k, 0])
+                 and Q[k, 1] == round(Q[k, 1])]
+        for mult, off, dt in [(1, 4, np.uint8), (1, 4, np.uint16),
+                              (1, 5, np.uint32), (1, 4, np.uint64),
+                              (25, 0, np.int8), (8000, 0, np.int16),
+                              (1, 0, np.int8), (30, 124, np.uint8)][
+                                  case["rot"] % 2::2]:
+            PV = (Pc * mult + off).astype(dt)
+            r4 = gutils.points_inside_polygon(
+                np.ascontiguousarray(Q * mult + off), PV, **OPTS).astype(bool)
+            if not np.array_equal(r4[J], res[J]):
+                k = J[np.argmax(r4[J] != res[J])]
+                raise Violation(
+                    f"polygon given as {np.dtype(dt).name} array "
+                    f"{PV.tolist()} changes the answer for point "
+                    f"{(Q[k] * mult + off).tolist()}: {int(res[k])} -> "
+                    f"{int(r4[k])}")
+            if whole and (Q[whole] * mult + off).min() >= np.iinfo(dt).min \
+                    and (Q[whole] * mult + off).max() <= np.iinfo(dt).max:
+                W = np.array(whole)
+                r5 = gutils.points_inside_polygon(
+                    (Q[W] * mult + off).astype(dt), PV, **OPTS).astype(bool)
+                if not np.array_equal(r5, res[W]):
+                    k = W[np.argmax(r5 != res[W])]
+                    raise Violation(
+                        f"points and polygon given as {np.dtype(dt).name} "
+                        f"arrays: answer for point "
+                        f"{(Q[k] * mult + off).tolist()} changes "
+                        f"{int(res[k])} -> {int(r5[k])}; polygon "
+                        f"{PV.tolist()}")
+        labels.append("whole-number-dtypes")
 
     # cells_inside_polygon
     ncols, nrows, csz, xll, yll = case["grid"]
